@@ -207,7 +207,7 @@ func classify(ctx *hx.Ctx, id int, c *Case, res *Result, feats []string) {
 		}
 	}
 	for _, p := range res.problems {
-		if badChunkOps && strings.Contains(p, "OpenFileWithPreReader differs") {
+		if badChunkOps && strings.Contains(p, "OpenFileWithPreReader") {
 			continue // a chunk table that does not tile is not a valid blob: bytes are not compared
 		}
 		ctx.Violation(id, p, nil)
@@ -265,12 +265,6 @@ func classify(ctx *hx.Ctx, id int, c *Case, res *Result, feats []string) {
 			}
 		case "data", "pre":
 			if badChunks {
-				continue
-			}
-			if d.Kind == "pre" && (strings.Contains(d.Mem, "error(") || strings.Contains(d.Db, "error(")) {
-				// reads through OpenFileWithPreReader fail in one or both stores for streams with inner offsets
-				// (byte path, property C02): reported to the lead, not compared here
-				ctx.Count("op.prereader.read-error")
 				continue
 			}
 			unexplained = append(unexplained, d)
